@@ -5,6 +5,7 @@ mod c10;
 mod c11;
 mod c12;
 mod c13;
+mod c14;
 mod defs;
 mod enc;
 mod gen;
@@ -36,6 +37,7 @@ fn run_line(state: &mut parse::RunState, request: &str) -> Option<(String, Strin
         Some("NORM") => c11::run_request(&words),
         Some("SPLIT") => c10::run_request(&words),
         Some("CMAP_LOAD") | Some("NORMS") => c12::run_request(state, &words),
+        Some("DESER") | Some("TODEF") => c14::run_request(&words),
         Some("DEF") => parse::run_def(state, &words).map(|a| (request.to_string(), a)),
         Some("ENC") | Some("ENC2") | Some("ENC7") | Some("ENC9") | Some("ENC18") | Some("DEC") | Some("BPE") | Some("UNI") | Some("WP") => parse::run_encdec(state, &words),
         _ => None,
@@ -64,6 +66,7 @@ fn main() {
                 "C10" => c10::gen(&mut rng, thorough, &mut out),
                 "C11" => c11::gen(&mut rng, thorough, &mut out),
                 "C12" => c12::gen(&mut rng, thorough, &mut out),
+                "C14" => c14::gen(&mut rng, thorough, &mut out),
                 "C13" => c13::gen(&mut rng, thorough, &mut out),
                 "SMOKE" => smoke::gen(&mut rng, thorough, &mut out),
                 _ => {
